@@ -996,6 +996,8 @@ func TestC03(t *testing.T) {
 	}
 	// the real keeper: fixed and generated disagreements, and every collision the search above found
 	keeperRun(t, r, g, byTag)
+	// the entry point: MsgClaim in signed transactions through baseapp (ante handler, stateless validation)
+	txEntry(t, r, g, byTag)
 	out.Stats.Extra["claim_types"] = len(ks)
 	out.Stats.Extra["perturbation_variants"] = r.nVariants
 	out.Stats.Extra["collisions_found"] = len(r.found)
